@@ -65,6 +65,9 @@ def run(run):
                 run.violation(('spec', res.violated, label), 'Stream invariant violated', tlc.error_trace(res))
             run.add_tlc(res, 'Stream (valid messages) ' + label)
             cases = list(res.iter_emitted())
+            if 'uniform' in label:
+                for c in cases:
+                    c['filter'] = stream.FILTER_ED4_ONLY
             stream.replay_cases(run, cases, 'split')
             if cases:
                 run.sample(stream.brief(cases[len(cases) // 2]), limit=3)
